@@ -275,7 +275,8 @@ def exec_multi_tan(case):
                     except Exception as e:  # noqa
                         raise Violation("terminates", f"serial tiling raised {type(e).__name__}: {e}")
                 else:
-                    w, res = scen.run_sim(lambda: proc.tile(pio, parallel=kk), None, world=world)
+                    with scen.critical_section_yields(world):
+                        w, res = scen.run_sim(lambda: proc.tile(pio, parallel=kk), None, world=world)
                     judge_termination(desc, res, w)
                     judge_workers(desc, w)
                     if w.leftovers():
